@@ -311,7 +311,9 @@ def tables_digest(asm):
     """Digest of every module-level dict / set / list of the assembler module (contents by key and by the
     identity of function values) - any in-place mutation by a call shows as a changed digest."""
     h = hashlib.sha1()
-    names = sorted(n for n, v in vars(asm).items() if isinstance(v, (dict, set, frozenset, list)) and not n.startswith('__'))
+    # the semantic tables the property names (registers, instruction maps, keyword sets); a cache a refactoring may add
+    # under another name is deliberately not digested - only results decide about it
+    names = sorted(n for n in TABLES if isinstance(getattr(asm, n, None), (dict, set, frozenset, list)))
     for n in names:
         v = getattr(asm, n)
         h.update(n.encode())
